@@ -31,7 +31,7 @@ META = {
             "granularity of the first call (lines found by tracing, so they follow refactorings; for reader/two-ordered-writes pairs "
             "the copy module is monitored too, so the reader is preempted inside deepcopy). Driver 2 runs 3-thread soaks with "
             "seeded delay injection, driver 3 soaks of 3 OS processes on one SQLite / journal file. Every recorded history (<=10 / <=24 ops) is checked for linearizability against RefStorage. "
-            "Every other journal scene is aged by 120 s; a call raising outside the storage contract under mere concurrency is a violation; reads may not show a trial state nobody wrote or a template trial without its template fields. Held on the schedules explored; multi-preemption schedules are only sampled by the soak.",
+            "Every other journal scene is aged by 120 s; a call raising outside the storage contract under mere concurrency is a violation; reads may not show a trial state nobody wrote or a template trial without its template fields. Every other journal world hands the second worker an UNPICKLED COPY of the first worker's storage; pairs whose second call is the other worker's first read of immutable study info (directions / name) after a completed delete. Held on the schedules explored; multi-preemption schedules are only sampled by the soak.",
     "note": "Trusted: RefStorage + the WGL search (vf/linz.py; node cap => inconclusive, never violation). A call that raised a "
             "non-contract exception (e.g. SQLite 'database is locked') is an open operation. MySQL/PostgreSQL row locking and C-level "
             "races inside sqlite3/grpc are out of reach offline. A non-linearizable SQLite history that becomes linearizable when the "
